@@ -91,6 +91,7 @@ const (
 	flagAccessCalled uint8 = 1 << iota
 	flagReaccess
 	flagAccessStale
+	flagLoaded
 )
 
 var (
@@ -195,15 +196,16 @@ func (s *Subscription) Loaded(resourceSub *rescache.ResourceSubscription, err er
 			return
 		}
 
-		if s.state == stateDisposed {
-			resourceSub.Unsubscribe(s)
-			return
-		}
-
 		// A subscription is loaded once. When two queries that normalize to
 		// the same query are requested at the same time, the cache may
 		// announce the shared resource for both responses.
-		if s.resourceSub != nil {
+		if s.flags&flagLoaded != 0 {
+			return
+		}
+		s.flags |= flagLoaded
+
+		if s.state == stateDisposed {
+			resourceSub.Unsubscribe(s)
 			return
 		}
 
